@@ -377,6 +377,72 @@ def storage_case(sh, s, d, case):
                                                           'ref_formats': sorted({r.fmt for r in refs})})
 
 
+def packed_base_case(sh, s, d, case):
+    """the revision a stale writer started from has been packed away (demo storage over a FileStorage base that holds an older
+    revision of the object; file or memory changes; also a plain FileStorage): there is nothing to merge with - the commit must
+    be refused with a ConflictError, the resolver not called, nothing stored"""
+    import ZODB
+    import ZODB.DemoStorage
+    import ZODB.MappingStorage
+    import transaction
+    from zv import recfs, clock, objs
+    from zv.observe import observe, first_diff
+    from ZODB.POSException import ConflictError
+    rnd = random.Random(s)
+    FSM = recfs.install()
+    recfs.LOG.enabled = False
+    clk = clock.install(clock.FakeClock())
+    ZODB.DemoStorage.random = random.Random(s)
+    kind = rnd.choice(['demo(file,memory)', 'demo(file,file)', 'demo(demo(file,memory),memory)', 'file'])
+    base = FSM.FileStorage(os.path.join(d, 'Base.fs'))
+    db = ZODB.DB(base)
+    with db.transaction() as c:
+        c.root()['counter'] = objs.Counter()
+        c.root()['counter'].value = rnd.randrange(0, 5)
+    if kind == 'file':
+        st = base
+    else:
+        db.close()
+        base = FSM.FileStorage(os.path.join(d, 'Base.fs'))
+        st = ZODB.DemoStorage.DemoStorage(base=base, changes=FSM.FileStorage(os.path.join(d, 'Ch.fs')) if kind == 'demo(file,file)' else None)
+        if kind.startswith('demo(demo'):
+            st = st.push()
+        db = ZODB.DB(st)
+    tms = [transaction.TransactionManager() for _ in range(3)]
+    cs = [db.open(tm) for tm in tms]
+    tms[0].begin()
+    cs[0].root()['counter'].value += rnd.randrange(1, 9)          # T1: the revision the stale writer will start from
+    tms[0].commit()
+    tms[1].begin()
+    w = cs[1].root()['counter']
+    w.value += 100                                                # stale writer W, transaction kept open
+    tms[2].begin()
+    cs[2].root()['counter'].value += 10                           # T2
+    tms[2].commit()
+    try:
+        db.pack(clk.now + 10)                                      # drops T1
+    except Exception as e:
+        sh.note('pack_exceptions_in_packed_base_case', type(e).__name__)
+    del objs.RESOLVER_LOG[:]
+    before = observe(st, full=False, undolog=False)
+    sh.count('stale_writers_whose_base_revision_was_packed_away')
+    try:
+        tms[1].commit()
+        ok = True
+    except ConflictError:
+        ok = False
+        tms[1].abort()
+    wit = {'kind': kind, 'resolver_calls': [(lo.get('value'), lc.get('value'), ln.get('value')) for (_, lo, lc, ln) in objs.RESOLVER_LOG]}
+    if ok:
+        sh.violation('c10:%s:commit-accepted-although-the-writers-base-revision-no-longer-exists' % kind, wit, case)
+    elif first_diff(observe(st, full=False, undolog=False), before):
+        sh.violation('c10:%s:refused-conflict-changed-the-storage' % kind, wit, case)
+    for c in cs:
+        c.close()
+    db.close()
+    return None
+
+
 def run_shard(params):
     logging.disable(logging.CRITICAL)
     sh = Shard(params)
@@ -385,9 +451,11 @@ def run_shard(params):
             break
         s = case_seed(params, i)
         which = 'storage' if i % 2 else 'db'
+        if i % 20 == 7:
+            which = 'packed-base'
         case = {'seed': s, 'which': which}
         d = sh.fresh_dir('c10')
-        r = guarded(sh, 'c10', case, lambda: (storage_case if which == 'storage' else db_case)(sh, s, d, case))
+        r = guarded(sh, 'c10', case, lambda: {'storage': storage_case, 'db': db_case, 'packed-base': packed_base_case}[which](sh, s, d, case))
         if r:
             sh.case(r[0], r[1])
         else:
@@ -398,5 +466,5 @@ def run_shard(params):
 def replay(case, scratch):
     logging.disable(logging.CRITICAL)
     sh = Shard({'scratch': scratch})
-    guarded(sh, 'c10', case, lambda: (storage_case if case['which'] == 'storage' else db_case)(sh, case['seed'], sh.fresh_dir('c10'), case))
+    guarded(sh, 'c10', case, lambda: {'storage': storage_case, 'db': db_case, 'packed-base': packed_base_case}[case['which']](sh, case['seed'], sh.fresh_dir('c10'), case))
     return sh.violations
